@@ -25,7 +25,7 @@ def IsRw (s : St) (a : Nat) : Prop := s.rw (s.grp a) = true
 /-- connect + start (or the sender's destructor) has been executed for `a` -/
 def Started (s : St) (a : Nat) : Prop := s.acc a ≠ .none ∧ s.acc a ≠ .sender
 
-theorem held_lt {s : St} (hi : Inv s) {a : Nat} (h : Held s a) : a < s.na ∧ post (s.acc a) = true := by
+private theorem held_lt {s : St} (hi : Inv s) {a : Nat} (h : Held s a) : a < s.na ∧ post (s.acc a) = true := by
   obtain ⟨c, hc⟩ := h
   exact ⟨lt_of_acc hi (by rw [hc]; simp), by rw [hc]; rfl⟩
 
@@ -168,7 +168,7 @@ def Internal : Ev → Prop
 def Stuck (s : St) : Prop := ∀ e, Internal e → step s e = none
 
 /-- if every access of every group before `g` is released, the predecessor of `g` is destroyed -/
-theorem pred_dead {s : St} (hi : Inv s) : ∀ g, g < s.ng →
+private theorem pred_dead {s : St} (hi : Inv s) : ∀ g, g < s.ng →
     (∀ b, b < s.na → s.grp b < g → s.acc b = .released) → g = 0 ∨ s.dead (g - 1) = true := by
   intro g
   induction g with
@@ -325,6 +325,97 @@ theorem C04_progress (s : St) (hr : Reachable s) (hs : Stuck s) :
           have := hs (.cont t g (ackOf det' a') (grantDies s a' det')) trivial
           simp [step, hd, hx', m2] at this
         | _ => rw [hx'] at m3; simp [isQ] at m3
+
+/-- **Solo completion of `add_op_state`.**  A thread that is inside `start()` finishes it within
+    three of its own steps if it runs alone: it either pushes its operation state or runs the
+    continuation inline (lock-freedom of the CAS loop: a CAS can only fail because the head moved). -/
+theorem C04_solo_start (s : St) (a : Nat)
+    (hx : (∃ t det, s.acc a = .starting t det) ∨ (∃ t det h, s.acc a = .loaded t det h)) :
+    ∃ es s', es.length ≤ 3 ∧ (∀ e, e ∈ es → Internal e) ∧ runLog step s es = some s' ∧
+      (isQ (s'.acc a) = true ∨ post (s'.acc a) = true) := by
+  -- a CAS with an up-to-date expected value succeeds
+  have hfresh : ∀ (s : St) t det (q : List Nat), s.acc a = .loaded t det q.length → s.head (s.grp a) = some q →
+      ∃ es s', es.length ≤ 1 ∧ (∀ e, e ∈ es → Internal e) ∧ runLog step s es = some s' ∧
+        (isQ (s'.acc a) = true ∨ post (s'.acc a) = true) := by
+    intro s t det q hx hh
+    refine ⟨[.cas t a true 0 false false],
+      { s with head := upd s.head (s.grp a) (some (a :: q)), acc := upd s.acc a (.queued det) }, by simp, ?_, ?_, Or.inl ?_⟩
+    · intro e he; simp at he; subst he; trivial
+    · simp [runLog, step, hx, hh]
+    · simp [upd, isQ]
+  -- from `loaded`: at most a failed CAS (stale head) followed by a successful one
+  have hloaded : ∀ (s : St) t det h, s.acc a = .loaded t det h →
+      ∃ es s', es.length ≤ 2 ∧ (∀ e, e ∈ es → Internal e) ∧ runLog step s es = some s' ∧
+        (isQ (s'.acc a) = true ∨ post (s'.acc a) = true) := by
+    intro s t det h hx
+    cases hh : s.head (s.grp a) with
+    | none =>
+      refine ⟨[.cas t a false 2 (!det) (grantDies s a det)], grant s t a det, by simp, ?_, ?_, Or.inr (grant_acc_post s t a det)⟩
+      · intro e he; simp at he; subst he; trivial
+      · simp [runLog, step, hx, hh]
+    | some q =>
+      obtain ⟨es, s', h1, h2, h3, h4⟩ := hfresh { s with acc := upd s.acc a (.loaded t det q.length) } t det q
+        (by simp [upd]) (by simpa using hh)
+      refine ⟨.cas t a false (clsOf q) false false :: es, s', by simp; omega, ?_, ?_, h4⟩
+      · intro e he; simp at he; rcases he with he | he
+        · subst he; trivial
+        · exact h2 e he
+      · simp only [runLog, step, hx, hh]; simpa using h3
+  rcases hx with ⟨t, det, hx⟩ | ⟨t, det, h, hx⟩
+  · cases hh : s.head (s.grp a) with
+    | none =>
+      refine ⟨[.load t a 2 (!det) (grantDies s a det)], grant s t a det, by simp, ?_, ?_, Or.inr (grant_acc_post s t a det)⟩
+      · intro e he; simp at he; subst he; trivial
+      · simp [runLog, step, hx, hh]
+    | some q =>
+      obtain ⟨es, s', h1, h2, h3, h4⟩ := hloaded { s with acc := upd s.acc a (.loaded t det q.length) } t det q.length (by simp [upd])
+      refine ⟨.load t a (clsOf q) false false :: es, s', by simp; omega, ?_, ?_, h4⟩
+      · intro e he; simp at he; rcases he with he | he
+        · subst he; trivial
+        · exact h2 e he
+      · simp only [runLog, step, hx, hh]; simpa using h3
+  · obtain ⟨es, s', h1, h2, h3, h4⟩ := hloaded s t det h hx
+    exact ⟨es, s', by omega, h2, h3, h4⟩
+
+private theorem reachable_step {s s' : St} {e : Ev} (hr : Reachable s) (h : step s e = some s') : Reachable s' := by
+  obtain ⟨log, hlog⟩ := hr
+  refine ⟨log ++ [e], ?_⟩
+  rw [runLog_append, hlog]; simp [runLog, h]
+
+/-- **Solo completion of `done()`.**  A `done()` frame with `n` continuations left finishes in `n`
+    steps of its thread (each runs one continuation; the frames it may open on later groups are
+    separate obligations of the same kind). -/
+theorem C04_solo_done (g t : Nat) : ∀ (r : List Nat) (s : St), Reachable s → g < s.ng → s.dn g = .drain t r →
+    ∃ es s', es.length = r.length ∧ (∀ e, e ∈ es → Internal e) ∧ runLog step s es = some s' ∧
+      s'.dn g = .drain t [] := by
+  intro r
+  induction r with
+  | nil => intro s _ _ hd; exact ⟨[], s, rfl, by simp, rfl, hd⟩
+  | cons a' rest ih =>
+    intro s hr hg hd
+    obtain ⟨log, hlog⟩ := hr
+    have hi := inv_of_accepted hlog
+    · have h1 := hi.headDn g hg
+      rw [hd] at h1
+      have hh : s.head g = none := by cases hh : s.head g <;> simp_all [isDrain]
+      have hm' : a' ∈ qof s g := by simp [qof, qofF, hh, hd]
+      obtain ⟨m1, m2, m3⟩ := (hi.qMem _ a' hg).1 hm'
+      cases hx' : s.acc a' with
+      | queued det' =>
+        let s0 : St := { s with dn := upd s.dn g (.drain t rest) }
+        have hstep : step s (.cont t g (ackOf det' a') (grantDies s a' det')) = some (grant s0 t a' det') := by
+          simp [step, hd, hx', m2, s0]
+        have hdn : (grant s0 t a' det').dn g = .drain t rest := by
+          have := grant_dn_self s0 t a' det'
+          have hg0 : s0.grp a' = g := m2
+          rw [hg0] at this; rw [this]; simp [s0, upd]
+        obtain ⟨es, s', e1, e2, e3, e4⟩ := ih _ (reachable_step ⟨log, hlog⟩ hstep) (by rw [grant_ng]; exact hg) hdn
+        refine ⟨.cont t g (ackOf det' a') (grantDies s a' det') :: es, s', by simp [e1], ?_, ?_, e4⟩
+        · intro e he; simp at he; rcases he with he | he
+          · subst he; trivial
+          · exact e2 e he
+        · simp only [runLog, hstep]; exact e3
+      | _ => rw [hx'] at m3; simp [isQ] at m3
 
 /-! ## Non-vacuity: concrete accepted logs reaching the interesting states -/
 
